@@ -142,9 +142,14 @@ def main():
 def run(prop, tier, cfg, seed, env, work, replay, t_start):
     pkg = cfg["pkg"]
     test = cfg.get("test", "Test" + prop)
-    binpath = os.path.join(work, "check.test")
-    if not build(pkg, binpath, env, cfg.get("tags", "verif")):
-        return 2
+    # a property may be served by tests of several packages ("also": [{"pkg":..,"test":..}])
+    targets = [(pkg, test)] + [(a["pkg"], a["test"]) for a in cfg.get("also", [])]
+    bins = []
+    for ti, (tpkg, ttest) in enumerate(targets):
+        binpath = os.path.join(work, "check%d.test" % ti)
+        if not build(tpkg, binpath, env, cfg.get("tags", "verif")):
+            return 2
+        bins.append((binpath, ttest))
 
     shards = int(cfg.get("shards", 16)) if tier == "thorough" else 1
     if replay:
@@ -152,8 +157,8 @@ def run(prop, tier, cfg, seed, env, work, replay, t_start):
         env["VERIF_REPLAY"] = replay
     timeout = int(cfg.get("timeout_" + tier, 900 if tier == "quick" else 3600))
     procs = []
-    for i in range(shards):
-        d = os.path.join(work, "shard%d" % i)
+    for i, (binpath, test) in [(i, b) for i in range(shards) for b in bins]:
+        d = os.path.join(work, "shard%d-%s" % (i, os.path.basename(binpath)))
         os.makedirs(d)
         # testdata next to the test binary's cwd: rapid replays testdata/rapid first, keep it empty
         e = dict(env)
